@@ -1,6 +1,6 @@
 """C08 — event authorization: per-version flags == spec; decision equivalence of every rule function with the specification's model
 over a finite abstraction that is exhaustive for the comparisons the rules make."""
-import importlib.util, itertools, os
+import re, importlib.util, itertools, os
 from .. import dex as D, world as W, mir as M, authmodel as A
 from . import tables as T
 
@@ -235,7 +235,24 @@ def run(ctx):
     try:
         lp = dex_l.paths(f, [D.sym("ev"), D.sym("tpi"), D.sym("target"), D.sym("fetch")])
         allow = [p for p in lp if A.outcome(p) == "allow"]
-        good = bool(allow) and all(any(t and a[0] == "variant" and a[2] == "Ok" and "verify_canonical_json_bytes(" in D.show(a[1]) for a, t in p.conds) for p in allow)
+        def verified(a, t):
+            if t and a[0] == "variant" and a[2] == "Ok" and "verify_canonical_json_bytes(" in D.show(a[1]):
+                return True
+            # iterator form: keys.any(|k| .. verify(..).is_ok()) is true; the closure must return true only after a successful verification
+            sa = D.show_atom(a)
+            m = re.match(r"^Iterator::any\(.*, closure\[([^\]]+)\]", sa)
+            if t and a[0] == "bool" and m:
+                clo = w.lookup(m.group(1))
+                if clo is None or "body" not in clo:
+                    return False
+                cps = dex_l.paths(clo, [D.sym("env"), D.sym("k")])
+                trues = [q for q in cps if q.kind == "ret" and D.show(q.ret) != "False"]
+                return bool(trues) and all(q.kind == "ret" for q in cps) and all(
+                    any(tt and b[0] == "variant" and b[2] == "Ok" and "verify_canonical_json_bytes(" in D.show(b[1]) for b, tt in q.conds) or
+                    (q.ret is not None and q.ret[0] == "atom" and q.ret[1][0] == "variant" and q.ret[1][2] == "Ok" and "verify_canonical_json_bytes(" in D.show(q.ret[1][1]))
+                    for q in trues)
+            return False
+        good = bool(allow) and all(any(verified(a, t) for a, t in p.conds) for p in allow)
         ctx.check(good, rule, f"{rule}:third-party-invite:allow-needs-valid-signature", w.where(f),
                   bad_msg="a path allows the third-party invite without a successful signature verification")
     except D.Unrecognised as e:
@@ -303,6 +320,8 @@ def run(ctx):
                           sender_membership=sm, sender_pl=sp, invite_pl=ip, required_pl=rp, state_key_starts_with_at=at, state_key_is_sender=isme), vf))
     KEY_FIELDS["top"] = ["type", "create_in_state", "create_in_auth_events", "federate", "same_server_as_creator", "sender_membership"]
 
+    SK = r"Event::state_key\(ev\)(\.Some\.0)?"
+
     def build_top(sc, fl):
         return A.Scenario(
             enums=[(r"^Event::event_type\(ev\)$", sc["type"])] + std_enums(sc), bools=flag_bools(fl) + [
@@ -311,8 +330,9 @@ def run(ctx):
             ints=[(PL_USER.format(r"Event::sender\(ev\)"), sc["sender_pl"]), (PL_FIELD.format("Invite"), sc["invite_pl"]),
                   (r"event_power_level\(", sc["required_pl"])],
             eqs=[(r"UserId::server_name\(Event::sender\(.*room_create_event.*==UserId::server_name\(Event::sender\(ev\)\)|UserId::server_name\(Event::sender\(ev\)\)==UserId::server_name", sc["same_server_as_creator"]),
-                 (r"Event::state_key\(ev\)==Option::Some\(ServerName::as_str|Option::Some\(ServerName::as_str.*==Event::state_key\(ev\)", sc["state_key_is_sender_server"]),
-                 (r"Event::state_key\(ev\)==Option::Some\(UserId::as_str|Option::Some\(UserId::as_str.*==Event::state_key\(ev\)", sc["state_key_is_sender"])],
+                 # the state key compared as Option (`state_key() == Some(x)`) or unwrapped inside a closure (`k == x`), either operand order
+                 (SK + r"==(Option::Some\()?ServerName::as_str|(Option::Some\()?ServerName::as_str.*==" + SK, sc["state_key_is_sender_server"]),
+                 (SK + r"==(Option::Some\()?UserId::as_str|(Option::Some\()?UserId::as_str.*==" + SK, sc["state_key_is_sender"])],
             wrappers=[(r"^FetchStateExt::room_create_event\(fetch\)$", "Ok" if sc["create_in_state"] else "Err"),
                       (r"^Event::state_key\(ev\)$", "Some")])
     compare(ctx, w, f, paths, rule, scen, build_top, spec.top_level, "top")
